@@ -25,7 +25,7 @@ PROPS["C18"] = {
             "alphabet from 7 start states. Non-trivial = at least 2 operations and (the list grew past its initial allocation or a SetBit "
             "happened after an append); distinct by the full operation sequence.",
     "assumptions": COMMON_ASSUMPTIONS + ["indices passed to SetBit/GetBit are always below Len() (the documented domain)",
-                                         "AddBits counts are 0..64 (an int has 64 bits)"],
+                                         "AddBits counts 0..255 (the parameter is a byte); bits above position 63 of the integer are its sign (two's complement)"],
 }
 
 PROPS["C17"] = {
@@ -55,6 +55,7 @@ PROPS["C05"] = {
     "level_note": RT_NOTE,
     "parts": [
         {"name": "regression", "kind": "plain", "test": "TestReplayDir"},
+        {"name": "magic", "kind": "plain", "test": "TestC05Magic"},
         {"name": "exhaustive", "kind": "plain", "test": "TestC05Exhaustive"},
         {"name": "rapid", "kind": "rapid", "test": "TestC05Rapid", "checks": {"quick": 120000, "thorough": 4000000}},
     ],
@@ -89,6 +90,7 @@ PROPS["C07"] = {
     "level_note": RT_NOTE,
     "parts": [
         {"name": "regression", "kind": "plain", "test": "TestReplayDir"},
+        {"name": "magic", "kind": "plain", "test": "TestC07Magic"},
         {"name": "exhaustive", "kind": "plain", "test": "TestC07Exhaustive"},
         {"name": "rapid", "kind": "rapid", "test": "TestC07Rapid", "checks": {"quick": 100000, "thorough": 3000000}},
     ],
@@ -104,6 +106,7 @@ PROPS["C08"] = {
     "level_note": RT_NOTE + "; element widths: narrow = 1 module, wide = 2 or 3 modules (the pinned test-suite fixes 2-module wide bars in the standard start/stop and 3-module wide data bars)",
     "parts": [
         {"name": "regression", "kind": "plain", "test": "TestReplayDir"},
+        {"name": "magic", "kind": "plain", "test": "TestC08Magic"},
         {"name": "exhaustive", "kind": "plain", "test": "TestC08Exhaustive"},
         {"name": "rapid", "kind": "rapid", "test": "TestC08Rapid", "checks": {"quick": 100000, "thorough": 3000000}},
     ],
@@ -138,7 +141,9 @@ PROPS["C01"] = {
     "level_note": RT_NOTE + "; QR block and alignment tables generated from an unrelated implementation found on this machine (npm qrcode-terminal, one known error corrected) and validated against the module-count formula; mask choice and segmentation are not judged",
     "parts": [
         {"name": "regression", "kind": "plain", "test": "TestReplayDir"},
+        {"name": "magic", "kind": "plain", "test": "TestC01Magic"},
         {"name": "sweep", "kind": "plain", "test": "TestC01Sweep", "plain_shards": 2},
+        {"name": "zero-ecc", "kind": "plain", "test": "TestC01ZeroECC"},
         {"name": "rapid", "kind": "rapid", "test": "TestC01Rapid", "checks": {"quick": 16000, "thorough": 1200000}},
     ],
     "universes": {"qr_layouts": QR_LAYOUTS, "qr_versions": [str(v) for v in range(1, 41)], "qr_masks": [str(m) for m in range(8)],
@@ -157,7 +162,9 @@ PROPS["C02"] = {
     "level_note": RT_NOTE + "; 144x144 block layout per ISO 16022 (stream codeword p belongs to block p mod 10)",
     "parts": [
         {"name": "regression", "kind": "plain", "test": "TestReplayDir"},
+        {"name": "magic", "kind": "plain", "test": "TestC02Magic"},
         {"name": "sweep", "kind": "plain", "test": "TestC02Sweep", "plain_shards": 2},
+        {"name": "zero-ecc", "kind": "plain", "test": "TestC02ZeroECC"},
         {"name": "rapid", "kind": "rapid", "test": "TestC02Rapid", "checks": {"quick": 30000, "thorough": 1500000}},
     ],
     "universes": {"dm_sizes": [str(n) for n in (10, 12, 14, 16, 18, 20, 22, 24, 26, 32, 36, 40, 44, 48, 52, 64, 72, 80, 88, 96, 104, 120, 132, 144)],
@@ -176,6 +183,7 @@ PROPS["C04"] = {
     "level_note": RT_NOTE + "; the 3x929 pattern table is a frozen copy of the pinned tree validated structurally (17 modules, 4+4 elements of width 1..6, cluster formula, distinctness) - no second source exists offline; shape choice and compaction choices are not judged",
     "parts": [
         {"name": "regression", "kind": "plain", "test": "TestReplayDir"},
+        {"name": "magic", "kind": "plain", "test": "TestC04Magic"},
         {"name": "sweep", "kind": "plain", "test": "TestC04Sweep", "plain_shards": 2},
         {"name": "rapid", "kind": "rapid", "test": "TestC04Rapid", "checks": {"quick": 50000, "thorough": 2000000}},
     ],
@@ -201,6 +209,7 @@ PROPS["C03"] = {
     "level_note": RT_NOTE + "; the data-layer geometry follows the reading used by the ZXing reader and is self-tested on two externally sourced symbols (compact 3-layer, full 6-layer); which mode path the encoder takes is not judged; acceptance near capacity is judged in C10/C13",
     "parts": [
         {"name": "regression", "kind": "plain", "test": "TestReplayDir"},
+        {"name": "magic", "kind": "plain", "test": "TestC03Magic"},
         {"name": "known-findings", "kind": "plain", "test": "TestC03KnownFindings"},
         {"name": "sweep", "kind": "plain", "test": "TestC03Sweep", "plain_shards": 2},
         {"name": "rapid", "kind": "rapid", "test": "TestC03Rapid", "checks": {"quick": 30000, "thorough": 1200000}},
@@ -347,7 +356,8 @@ for _pid, _secs in (("C01", 150), ("C02", 120), ("C03", 180), ("C04", 180), ("C0
     PROPS[_pid]["parts"].append({"name": "native-fuzz", "kind": "fuzz", "test": "Fuzz" + _pid, "tiers": ("thorough",), "fuzztime": {"thorough": _secs}})
 
 # ---- additions to the rule texts (generator features added after the seeded-change waves)
-RULE_ADDENDA = {'C01': ' One rapid case in twelve is a boundary-seeking case: a growing content family prefix+fill(n)+suffix, the smallest n at which the returned symbol '
+RULE_ADDENDA = {'C09': ' One case in five is a deep history (4..9 steps of small enlargements); one step in four scales the previous parent once more (tree-shaped histories); every earlier result of at most 150000 pixels is re-read after later steps and must be what it was.',
+ 'C01': ' One rapid case in twelve is a boundary-seeking case: a growing content family prefix+fill(n)+suffix, the smallest n at which the returned symbol '
         "outgrows a drawn version is found by bisection on the library's own answers, and the check runs on n-2..n+1 (the implementation's size transitions, "
         'wherever they are).',
  'C02': " One rapid case in twenty is a boundary-seeking case (bisection on the library's own size answers for a growing content family; check on n-2..n+1).",
@@ -371,5 +381,18 @@ RULE_ADDENDA = {'C01': ' One rapid case in twelve is a boundary-seeking case: a 
         'zeros; histories may contain impossible requests (count > size-1 or negative) whose own outcome is not judged; every Encode under a 20 s watchdog.',
  'C18': ' Variadic appends also in structured patterns (all zero, ones-then-zeros, zeros-then-ones, single one, zero words) with word-multiple lengths; plus a '
         'sweep of one variadic append of 32..4097 bits x 7 patterns from 31 start lengths.'}
+RULE_ADDENDA['C01'] += ' zero-ecc part: full-capacity byte contents whose last Reed-Solomon block has check words with leading / trailing / inner zeros (solved over GF(2) with the reference arithmetic), versions 1..12 (thorough 1..40) x 4 levels x 5 patterns. Sweep also: every byte value in five surroundings x four modes.'
+RULE_ADDENDA['C02'] += ' zero-ecc part: single-block sizes, full-capacity contents whose check words have leading / trailing / inner zeros (solved over GF(256) with the reference arithmetic). Sweep also: every byte value in six surroundings.'
+RULE_ADDENDA['C04'] += ' Sweep also: every byte value in seven surroundings.'
+RULE_ADDENDA['C15'] += ' One history in three contains a near-twin of one of its calls (same content with one parameter changed, or same parameters with the content reversed / rotated / two characters swapped). The aliasing probe overwrites the input both after and before the first read of the returned barcode.'
+for _pid in ('C01', 'C02', 'C03', 'C04', 'C05', 'C07', 'C08'):
+    RULE_ADDENDA[_pid] = RULE_ADDENDA.get(_pid, '') + ' magic part: ~190 contents with a meaning to barcode software beyond their bytes (byte order marks, ISO 15434 envelopes, GS1 element strings and symbology identifiers, FNC1/GS separators, ECI escapes, Code 39 start/stop and full-ASCII escapes, Shift-JIS bytes, vCard/Wi-Fi/URL payloads, blanks at the edges), alone and embedded, through every mode / option mix.'
+for _pid in ('C01', 'C02', 'C03', 'C04', 'C05', 'C06', 'C07', 'C08'):
+    RULE_ADDENDA[_pid] = RULE_ADDENDA.get(_pid, '') + ' One accepted case in four is encoded again through the WithColor entry point with a non-default scheme and must draw the same module pattern; every pixel read also compares RGBA64At (if offered) and an image/draw rendering with At().'
+RULE_ADDENDA['C14'] = " Entry points: Encode and EncodeWithColor (one case in four), and Code 128's no-checksum variants (judged when they expose CheckSum()); scaling rounds alternate Scale and ScaleWithFill with fills outside the barcode's colour model."
+RULE_ADDENDA['C16'] += ' bursts also: 64 goroutines encoding adjacent sub-slices of one caller-owned buffer (Aztec, the []byte entry point), results compared with the same bytes alone and the buffer compared afterwards.'
+RULE_ADDENDA['C17'] += ' Operands (polynomial objects and the slices handed to NewGFPoly) must be unchanged after every operation; every slice returned by Encode is overwritten before the next call of the history.'
+RULE_ADDENDA['C18'] += ' AddBits counts up to 255 (bits above 63 = sign); iter2 = a second channel view opened while the first is half read, both must yield the whole sequence.'
+RULE_ADDENDA['C09'] += ' One case in forty starts with a print-sized enlargement (factor 20..130, up to 2 million pixels); results also read through RGBA64At / image/draw.'
 for _pid, _add in RULE_ADDENDA.items():
     PROPS[_pid]["rule"] += _add
